@@ -84,7 +84,29 @@ def _cases(draw):
         # the legacy 'flat' setting hoists the content of groups into their parent
         form.setdefault("settings", {})["flat"] = "yes"
         c["flat"] = True
+        inner = [n for n, anc in model.walk(form["nodes"]) if n["k"] == "q" and anc and "name" in n["c"]]
+        if inner and g.p("_", 0.4):
+            # an empty group keeps its own node: a hoisted question of the same name lands beside it
+            form["nodes"].insert(g.integer(0, len(form["nodes"])), {"k": "g", "c": {"name": g.pick(inner)["c"]["name"], "label": "E"}, "ch": []})
+        for n, _ in model.walk(form["nodes"]):
+            if n["k"] == "g" and n.get("ch") and g.p("_", 0.4):
+                # logic on a flattened group other than relevance: the group has no node of its own to bind
+                n["c"][g.pick(["readonly", "required", "bind::custom"])] = g.pick(["yes", "true()", "${%s} = 1" % g.names[0] if g.names else "yes"])
+    if g.p("_", 0.12):
+        c["collision"] = triple(g, form) or c.get("collision")
     return c
+
+
+def triple(g, form):
+    """the name of a triggered calculation used two more times elsewhere: the setvalue must still target the triggered row, or the form be refused"""
+    trig = [(n, anc) for n, anc in model.walk(form["nodes"]) if n["k"] == "q" and "trigger" in n["c"] and "name" in n["c"]]
+    if not trig:
+        return None
+    t, _ = g.pick(trig)
+    for i in range(g.pick([2, 2, 4])):
+        form["nodes"].append({"k": "g", "c": {"name": f"tri{i}_" + str(g.integer(100, 999)), "label": "T"},
+                              "ch": [{"k": "q", "c": {"type": "text", "name": t["c"]["name"], "label": "same name"}}]})
+    return "triggered_name_thrice"
 
 
 def strategy(tier):
@@ -111,6 +133,7 @@ def evaluate(case) -> Outcome:
         out.label("unparseable (C01's business)")
         return out
     check_refs(out, v)
+    check_action_targets(out, form, v)
     depth = max((len(anc) for _, anc in model.walk(form["nodes"])), default=0)
     helpers = sum(1 for e in v.primary.iter() if isinstance(e.tag, str) and (
         xform.local(e).endswith(("_count", "_other")) or xform.local(e).startswith(("generated_", "reserved_name_"))
@@ -118,6 +141,22 @@ def evaluate(case) -> Outcome:
     out.nontrivial = bool(coll) or depth >= 2 or helpers >= 2
     out.label(f"depth:{min(depth, 4)}")
     return out
+
+
+def check_action_targets(out: Outcome, form, v: xform.XFormView):
+    """a value-changed action belongs to the row that has the trigger cell: its ref is that row's node, whoever else shares the row's name"""
+    if form.get("settings", {}).get("flat"):
+        return
+    from vf.ref import expect
+    try:
+        root = expect.build(form)
+    except Exception:  # noqa: BLE001  (shapes the reference tree does not model: nothing to compare with)
+        return
+    want = sorted(n.path for n in root.walk() if n.src is not None and "trigger" in n.cells and n.kind == "q")
+    got = sorted(e.get("ref") for e in v.body.iter() if isinstance(e.tag, str) and e.tag in ACTION_TAGS and e.get("event") == "xforms-value-changed")
+    out.checked("C02.action-target")
+    if want != got:
+        out.fail("C02.action-target", "", f"value-changed actions target {got}, the rows with a trigger cell are {want}")
 
 
 def check_refs(out: Outcome, v: xform.XFormView):
